@@ -587,3 +587,74 @@ func twoDelHists(N int, ks []int, remFirst []int, remAdds bool) [][]Op {
 	}
 	return out
 }
+
+// manyRootsFamily: forests with 16..18 trees (2^k-1 leaves for k = 16, 17, 18; thorough also 2^17+2^16-1):
+// bit masks and counters indexed by root number that are 8 or 16 bits wide go wrong here. The
+// smallest trees are emptied, additions write over the empty roots (carrying up through all
+// trees for 2^k-1), and everything is undone block by block.
+func manyRootsFamily(c *Ctx, prop string) {
+	defer c.Phase("many-roots family")()
+	var or HistOracle
+	switch prop {
+	case "C01":
+		or = HistOracle{Roots: true, Prop: prop}
+	case "C06":
+		or = HistOracle{Roots: true, Lookups: true, Proofs: true, ProofSets: "ends", Prop: prop}
+	case "C10":
+		or = HistOracle{Lookups: true, Prop: prop}
+	default:
+		return
+	}
+	insts := []InstCfg{{Kind: "pollard"}, {Kind: "map", Full: true, TR: 63}, {Kind: "map", Full: false, TR: 0, Mode: "even"}}
+	if prop == "C01" {
+		insts = append([]InstCfg{{Kind: "stump"}}, insts...)
+	}
+	fam := &HistFamily{Nmax: 1 << 20, Insts: insts, Or: or, UndoBud: 3}
+	Ns := []int{1<<17 - 1}
+	if c.Thorough() {
+		Ns = []int{1<<16 - 1, 1<<17 - 1, 1<<18 - 1, 1<<17 + 1<<16 - 1}
+	}
+	c.Cov.Bound["many_roots.N"] = fmt.Sprint(Ns)
+	var hists [][]Op
+	for _, N := range Ns {
+		// the one-leaf tree; the two smallest trees; the second smallest tree only
+		for _, S := range [][]int{{N - 1}, {N - 3, N - 2, N - 1}, {N - 3, N - 2}} {
+			for _, k := range []int{1, 2} {
+				h := []Op{{Kind: "block", Adds: N}, {Kind: "block", Dels: S}, {Kind: "block", Adds: k}}
+				hists = append(hists, h, append(append([]Op(nil), h...), Op{Kind: "undo"}), append(append([]Op(nil), h...), Op{Kind: "undo"}, Op{Kind: "undo"}))
+			}
+			// deletion and additions in one block
+			h := []Op{{Kind: "block", Adds: N}, {Kind: "block", Dels: S, Adds: 2}}
+			hists = append(hists, h, append(append([]Op(nil), h...), Op{Kind: "undo"}))
+		}
+	}
+	var evals, done int64
+	cc := *c // a run holds a forest of ~260 000 nodes per instance plus the model: bound the memory
+	if cc.Workers > 6 {
+		cc.Workers = 6
+	}
+	ok := parallelFor(&cc, len(hists), func(i int) {
+		hist := hists[i]
+		defer func() {
+			if r := recover(); r != nil {
+				c.Col.Add(panicViolation(prop, r, debug.Stack(), mkCase("hist", histPayload{Fam: *fam, Hist: hist}), histStr(hist)))
+			}
+		}()
+		x := NewExec(prop, func() Case { return mkCase("hist", histPayload{Fam: *fam, Hist: hist}) })
+		is, md, ok := fam.run(x, hist)
+		if ok {
+			atomic.AddInt64(&evals, fam.observe(x, is, md, true))
+		}
+		x.CheckHeld()
+		c.Col.Add(x.Viol...)
+		atomic.AddInt64(&done, 1)
+	})
+	if !ok {
+		c.Cov.NotExhaustive("deadline reached in the many-roots family")
+	}
+	c.Cov.AddStates(done)
+	c.Cov.AddTransitions(done)
+	c.Cov.AddEvals(evals)
+	c.Cov.AddNontrivial(done)
+	c.Cov.SetExtra("many_roots_runs", done)
+}
